@@ -60,6 +60,8 @@ def rshow(r) -> str:
         return "(" + ", ".join(rshow(x) for x in r[1]) + ")"
     if r[0] == "dict":
         return f"dict of {rshow(r[1])}"
+    if r[0] == "record":
+        return "record(" + ", ".join(f"{k}: {rshow(v)}" for k, v in r[1]) + ")"
     if r[0] == "bad":
         return r[1]
     if r[0] == "mix":
@@ -85,6 +87,8 @@ def join(a, b):
         return seq(join(a[1], b[1]))
     if a[0] == "tuple" and b[0] == "tuple" and len(a[1]) == len(b[1]):
         return ("tuple", tuple(join(x, y) for x, y in zip(a[1], b[1])))
+    if a[0] == "record" and b[0] == "record" and [k for k, _ in a[1]] == [k for k, _ in b[1]]:
+        return ("record", tuple((k, join(x, y)) for (k, x), (_, y) in zip(a[1], b[1])))
     for x in (a, b):
         if x[0] == "bad":
             return x
@@ -158,6 +162,15 @@ class Flow:
         self.seen_obs.add(key)
         self.obs.append(Obs(kind, fr.s.qual.split(":")[-1], fr.s.module.relpath, fr.s.node.lineno, text, tuple(roles), (fr,) + tuple(terms)))
 
+    def record_fields(self, ci):
+        """field names, in order, of a NamedTuple / dataclass of the task package (None for any other class)"""
+        import ast as _ast
+        bases = [_ast.unparse(b) for b in ci.node.bases]
+        decos = [_ast.unparse(d) for d in ci.node.decorator_list]
+        if not (any(b.split(".")[-1] == "NamedTuple" for b in bases) or any("dataclass" in d for d in decos)):
+            return None
+        return [st.target.id for st in ci.node.body if isinstance(st, _ast.AnnAssign) and isinstance(st.target, _ast.Name)]
+
     # ------------------------------------------------------------------ the typing
     def role(self, fr: Frame, t, depth=0) -> tuple:
         if not isinstance(t, tuple) or not t:
@@ -202,7 +215,14 @@ class Flow:
         if k == "elem":
             return self.elem_role(fr, t[1], depth)
         if k == "tuple":
-            return ("tuple", tuple(self.role(fr, x, depth) for x in t[1]))
+            rs = tuple(self.role(fr, x, depth) for x in t[1])
+            ci = s.rec_types.get(t)
+            if ci is not None and not any(x[0] == "star" for x in t[1]):
+                import ast as _ast
+                names = [st.target.id for st in ci.node.body if isinstance(st, _ast.AnnAssign) and isinstance(st.target, _ast.Name)]
+                if len(names) == len(rs):
+                    return ("record", tuple(zip(names, rs)))  # a NamedTuple: fields by name and by position
+            return ("tuple", rs)
         if k == "list":
             out = EMPTY
             for x in t[1]:
@@ -256,6 +276,11 @@ class Flow:
                 if t[2][0] == "const" and isinstance(t[2][1], int) and -len(base[1]) <= t[2][1] < len(base[1]):
                     return base[1][t[2][1]]
                 return OTHER
+            if base[0] == "record":
+                # a NamedTuple unpacked / indexed by position
+                if t[2][0] == "const" and isinstance(t[2][1], int) and -len(base[1]) <= t[2][1] < len(base[1]):
+                    return base[1][t[2][1]][1]
+                return OTHER
             if base[0] == "seq":
                 return base if t[2][0] == "slice" else base[1]
             if base[0] == "dict":
@@ -273,6 +298,8 @@ class Flow:
                 return OTHER
             if base[0] == "obj" and t[2] == "score":
                 return SCORE
+            if base[0] == "record":
+                return dict(base[1]).get(t[2], OTHER)
             if base[0] == "bad":
                 return base
             return OTHER
@@ -303,6 +330,8 @@ class Flow:
             if r[0] == "seq" and r[1][0] == "tuple" and len(r[1][1]) == 2:
                 return ("dict", r[1][1][1])
             return ("dict", OTHER)
+        if f == ("ext", "itertools.chain.from_iterable") and len(t[2]) == 1:
+            return seq(self.element_of(self.element_of(self.role(fr, t[2][0], depth))))
         if f == ("ext", "itertools.chain"):
             out = EMPTY
             for a in t[2]:
@@ -337,6 +366,17 @@ class Flow:
             roles = {k_: self.role(fr, v, depth) for k_, v in kw.items()}
             self.observe(fr, name, show(t)[:100], sorted(roles.items()), (t,))
             return ("obj", name)
+        if f[0] == "global" and f[2] == "class" and f[1].split(":")[0].startswith(TASKS):
+            ci = self.ctx.index.class_by_qual(f[1])
+            fields = self.record_fields(ci) if ci is not None else None
+            if fields is not None:
+                vals = {}
+                for i, a in enumerate(t[2]):
+                    if a[0] != "star" and i < len(fields):
+                        vals[fields[i]] = self.role(fr, a, depth)
+                for k_, v in kw.items():
+                    vals[k_] = self.role(fr, v, depth)
+                return ("record", tuple((f_, vals.get(f_, OTHER)) for f_ in fields))
         if f[0] == "global" and f[2] == "func" and f[1].startswith(ENC + ":"):
             name = f[1].split(":")[1]
             cs = self.ctx.summ.of_func(ENC, name)
@@ -423,6 +463,20 @@ def check_metric_calls(ctx, rule, flow: Flow, tm: str) -> int:
             ctx.bad(rule, o.file, o.func, o.text[:80], f"{tm}.{o.func}: `{o.text}` is computed over {bad[1]}: the value is not the metric of the "
                     f"evaluated items' truths and predicted scores", o.lineno)
         elif ba in (TRUTH, NOCLASS) and bb == SCORES and da == db:
+            if da >= 1 and len(o.terms) >= 2:
+                # the i-th truth and the i-th score row belong to the same item: both lists are drawn from the same sequence
+                fr_, call_ = o.terms[0], o.terms[1]
+                kw_ = callkw(call_)
+                a_ = kw_.get("y_true", call_[2][0] if call_[2] else None)
+                b_ = kw_.get("y_score", call_[2][1] if len(call_[2]) > 1 else None)
+                rw_a = rows_in_frame(flow, fr_, a_) if a_ is not None else ("opaque",)
+                rw_b = rows_in_frame(flow, fr_, b_) if b_ is not None else ("opaque",)
+                if rw_a != ("opaque",) and rw_b != ("opaque",) and rw_a != rw_b:
+                    ctx.bad(rule, o.file, o.func, o.text[:80],
+                            f"{tm}.{o.func}: in `{o.text}` the truths and the score rows are not drawn from the same sequence of items "
+                            f"(truths: {show(a_)[:70]}; scores: {show(b_)[:70]}): the i-th truth is compared with the scores of another item "
+                            f"whenever the two sequences differ in order or membership", o.lineno)
+                    continue
             n += 1
             ctx.ok(rule, site, f"`{o.text[:60]}`: ({rshow(ra)}, {rshow(rb)})")
         elif ba in (OTHER,) or bb in (OTHER,) or ba[0] == "mix" or bb[0] == "mix":
@@ -521,8 +575,9 @@ def _alternatives(ctx, fr_s: Summary, t, depth=0):
 
 
 def selection_of(sel):
-    """(X, element attribute, filter) of the selection a mean is taken over:  [x.score for x in X if x.score is not None]  or
-    [s for s in [x.score for x in X] if s is not None]  (filter: 'notnone' | 'none' | 'isnone' | 'other')"""
+    """(scores list, filter) of the selection a mean is taken over: the list whose i-th entry is the i-th score, and how the
+    selection filters it ('none' | 'notnone' | 'isnone' | 'other'):  [x.score for x in X if x.score is not None],
+    [s for s in [x.score for x in X] if s is not None], [r.evaluation.score for r in records] ..."""
     def filt(conds, e):
         if not conds:
             return "none"
@@ -538,19 +593,43 @@ def selection_of(sel):
         return None
     lid, it, conds = sel[3][0]
     e = ("elem", lid)
-    if sel[2] == ("attr", e, "score"):
-        return it, "score", filt(conds, sel[2])
+    f1 = filt(conds, sel[2])
     if sel[2] == e:
         inner = selection_of(it)
         if inner is None:
-            return None
-        X, attr, f0 = inner
-        f1 = filt(conds, e)
+            return (it, f1)
+        lst, f0 = inner
         if f0 == "none":
-            return X, attr, f1
+            return lst, f1
         if f1 == "none":
-            return X, attr, f0
-        return X, attr, f0 if f0 == f1 else "other"
+            return lst, f0
+        return lst, (f0 if f0 == f1 else "other")
+    return ("comp", sel[1], sel[2], ((lid, it, ()),)), f1
+
+
+def scores_of(scores_list, X) -> Optional[bool]:
+    """is the i-th entry of `scores_list` the .score of the i-th element of X?  (None: the element-wise view does not say)"""
+    from sa import seqview
+    I = ("param", "__i__")
+    from .c04 import alpha
+    # [x.score for x in T] with T the reported list itself (whatever T filters)
+    if scores_list[0] == "comp" and len(scores_list[3]) == 1 and not scores_list[3][0][2] \
+            and scores_list[2] == ("attr", ("elem", scores_list[3][0][0]), "score"):
+        T = scores_list[3][0][1]
+        if T == X or alpha(T) == alpha(X):
+            return True
+        for w in WRAPPERS:
+            if T[0] == "call" and T[1] == w and len(T[2]) == 1 and (T[2][0] == X or alpha(T[2][0]) == alpha(X)):
+                return True
+    a, b = seqview.item(scores_list, I), seqview.item(X, I)
+    if a is None or b is None:
+        return None
+    if a == ("attr", b, "score"):
+        return True
+    from sa import seqview as _sv
+    la, lb = _sv.length(scores_list), _sv.length(X)
+    if a[0] == "attr" and a[2] == "score" and la is not None and lb is not None:
+        return False if (a[1] != b or la != lb) else True
     return None
 
 
@@ -580,7 +659,7 @@ def check_mean(ctx, rule, s: Summary, value, X, what: str, site_func: str, zero_
     if so is None:
         ctx.undec(rule, site, f"cannot read the selection the {what} averages: {show(sel)[:80]}")
         return False
-    Xs, attr, flt = so
+    Xs, flt = so
     ok = True
     if flt == "isnone":
         ctx.bad(rule, file, site_func, f"mean over {show(sel)[:70]}",
@@ -590,10 +669,15 @@ def check_mean(ctx, rule, s: Summary, value, X, what: str, site_func: str, zero_
         ctx.bad(rule, file, site_func, f"mean over {show(sel)[:70]}",
                 f"the {what} averages a filtered selection of the scores ({show(sel)[:100]}): it is not the mean over the reported objects", s.node.lineno)
         ok = False
-    if X is not None and Xs != X:
-        ctx.bad(rule, file, site_func, f"mean over the scores of {show(Xs)[:60]}",
-                f"the {what} is averaged over {show(Xs)[:80]} while the objects reported next to it are {show(X)[:80]}", s.node.lineno)
-        ok = False
+    if X is not None:
+        same = scores_of(Xs, X)
+        if same is None:
+            ctx.undec(rule, site, f"cannot relate the averaged scores {show(Xs)[:60]} to the reported objects {show(X)[:60]}")
+            ok = False
+        elif same is False:
+            ctx.bad(rule, file, site_func, f"mean over {show(Xs)[:60]}",
+                    f"the {what} is averaged over {show(Xs)[:80]} while the objects reported next to it are {show(X)[:80]}", s.node.lineno)
+            ok = False
     # the same selection written out twice (guard and argument) differs in its loop names only: one spelling for all of them
     from .c04 import alpha
     from sa.sym import subst
@@ -657,7 +741,7 @@ def check_mean(ctx, rule, s: Summary, value, X, what: str, site_func: str, zero_
         ctx.bad(rule, file, site_func, f"{what} of an empty selection", f"with no score present the {what} must be 0, found {live2[0][1][1]}", s.node.lineno)
         ok = False
     if ok:
-        ctx.ok(rule, site, f"{what} = mean of the score of every element of {show(Xs)[:50]} (non-empty: the mean; empty: a constant)")
+        ctx.ok(rule, site, f"{what} = mean over {show(Xs)[:50]}, the scores of the reported objects (non-empty: the mean; empty: a constant)")
     return ok
 
 
@@ -688,3 +772,74 @@ def check_lookups(ctx, rule, modnames):
                             n += 1
                             ctx.ok(rule, f"{m.relpath}:{e.lineno} {name}", f"lookup {show(x)[:50]} under its membership test")
     return n
+
+
+def rows_of(t):
+    """which sequence of items drives the list-valued term `t`, up to loop names: an unfiltered map keeps the rows of what it
+    iterates; a filtered comprehension has rows of its own; conversions keep rows"""
+    from .c04 import alpha
+    seen = 0
+    while seen < 20:
+        seen += 1
+        if t[0] == "call" and t[1] in WRAPPERS and len(t[2]) == 1:
+            t = t[2][0]
+            continue
+        if t[0] == "comp" and t[1] in ("list", "gen") and len(t[3]) == 1 and not t[3][0][2]:
+            t = t[3][0][1]
+            continue
+        break
+    if t[0] == "comp":
+        return alpha(("rows", tuple((lid_, it_, cnds) for lid_, it_, cnds in t[3])))
+    return alpha(("rows", t))
+
+
+def rows_in_frame(flow: "Flow", fr: Frame, t, depth=0):
+    """rows_of, following the list through parameters (to the caller's argument), accumulators and the components of helper results;
+    ('opaque',) when the list is not built by constructs this view reads"""
+    from .c04 import alpha
+    if depth > 12:
+        return ("opaque",)
+    while t[0] == "call" and t[1] in WRAPPERS and len(t[2]) == 1:
+        t = t[2][0]
+    if t[0] == "param":
+        src = getattr(fr, "args", {}).get(t)
+        if src is None:
+            return ("opaque",)
+        return rows_in_frame(flow, src[0], src[1], depth + 1)
+    if t[0] == "alloc":
+        if t in fr.s.alloc_comps:
+            return rows_in_frame(flow, fr, fr.s.alloc_comps[t], depth + 1)
+        sig = []
+        for e in fr.s.calls:
+            f = e.term[1]
+            if f[0] == "attr" and f[1] == t and f[2] in ("append", "extend", "insert") and len(e.term[2]) >= 1:
+                inner = rows_in_frame(flow, fr, e.term[2][0], depth + 1) if f[2] == "extend" else ("one",)
+                if inner == ("opaque",):
+                    return ("opaque",)
+                sig.append((e.loops, alpha(e.live), f[2], inner))
+        return ("acc", tuple(sorted(sig, key=repr))) if sig else ("opaque",)
+    if t[0] == "sub" and t[2][0] == "const" and isinstance(t[2][1], int) and t[1][0] == "call" and t[1][1][0] == "global" and t[1][1][2] == "func" \
+            and t[1][1][1].startswith(TASKS):
+        mod, name = t[1][1][1].split(":")
+        try:
+            cs = flow.ctx.summ.of_func(mod, name)
+        except Exception:  # noqa: BLE001
+            return ("opaque",)
+        rets = cs.returns
+        if len(rets) != 1 or rets[0].term[0] != "tuple" or not (0 <= t[2][1] < len(rets[0].term[1])):
+            return ("opaque",)
+        b, _, _, _ = bind_args(t[1], cs.params)
+        fr2 = Frame(cs, {})
+        fr2.args = {("param", p): (fr, v) for p, v in b.items()}
+        inner = rows_in_frame(flow, fr2, rets[0].term[1][t[2][1]], depth + 1)
+        return inner if inner == ("opaque",) else ("ret", name, inner)
+    if t[0] == "comp" and t[1] in ("list", "gen") and len(t[3]) == 1:
+        lid, it, conds = t[3][0]
+        if not conds:
+            inner = rows_in_frame(flow, fr, it, depth + 1)
+            if inner != ("opaque",):
+                return inner
+        return rows_of(t)
+    if t[0] == "attr" or (t[0] == "call" and t[1][0] == "global"):
+        return rows_of(t)
+    return ("opaque",)
